@@ -167,6 +167,9 @@ fn one_arm64(acc: &mut Acc, a: u64, tramp: Option<u64>, fake: u64, boolv: Option
             if run.written & !allowed != 0 {
                 let bad = run.written & !allowed;
                 acc.viol("C15", &format!("aarch64:writes-register-mask-{bad:#x}"), format!("the sequence writes registers outside x9-x17: mask {bad:#x} (path: {})", run.trace.join("; ")));
+                // x0-x7 carry arguments, x8 the indirect-result pointer, x19-x29 are callee-saved: the
+                // fake would not receive what the caller supplied (C13)
+                acc.viol("C13", &format!("aarch64:writes-register-mask-{bad:#x}"), format!("the AArch64 sequence between caller and fake writes an argument / indirect-result / callee-saved register: mask {bad:#x} (path: {})", run.trace.join("; ")));
             }
             if run.read_initial != 0 && matches!(run.stop, Stop::Left { .. } | Stop::Returned) {
                 acc.viol("C15", "aarch64:reads-caller-register", format!("the sequence reads a register holding the caller's value: mask {:#x} (path: {})", run.read_initial, run.trace.join("; ")));
